@@ -70,7 +70,7 @@ theorem foldl_apply_name (items : List Item) (c : Ctx) : (items.foldl Item.apply
   | cons it r ih => simp only [List.foldl_cons]; rw [ih, apply_name]
 
 /-- a freshly built non-list argument shows its declared default -/
-theorem init_value (sp : ArgSpec) (h : sp.kind ≠ .list) : (Arg.init sp).value = sp.default := by
+theorem init_value_nonlist (sp : ArgSpec) (h : sp.kind ≠ .list) : (Arg.init sp).value = sp.default := by
   unfold Arg.init Arg.value
   by_cases hi : sp.incrementable = true
   · simp [hi]
